@@ -30,7 +30,7 @@ def _lib():
 
 def tuples():
     out = list(itertools.product(VALS, repeat=4))
-    out += [t + ("clear",) for t in itertools.product(VALS, repeat=3)]
+    out += [t + (core.RUNTIME_CLEAR,) for t in itertools.product(VALS, repeat=3)]
     return out
 
 
